@@ -1,4 +1,5 @@
 import L21.Props.C07
+import L21.Props.C07Lib
 import L21.Props.C07RT
 #print axioms L21.RawGds.c07_path_open
 #print axioms L21.RawGds.c07_path_roundtrip
@@ -11,3 +12,4 @@ import L21.Props.C07RT
 #print axioms L21.RawGds.c07_cell_roundtrip
 #print axioms L21.RawGds.c07_cell_roundtrip_nonets
 #print axioms L21.RawGds.c07_label_names_one
+#print axioms L21.RawGds.c07_library
